@@ -266,3 +266,49 @@ func lockBalance(r *engine.Report, p *engine.Program, rule string, fns []*ssa.Fu
 	}
 	r.Add(rule, "functions with lock operations", 0, engine.Discharged, fmt.Sprintf("%d functions with lock operations, %d returns examined: none can return with a lock held", nFn, nRet))
 }
+
+// atomicSection decides a check-then-act clause: every instruction of `reads` (the test) and of
+// `writes` (the act) executes with the write lock lockField must-held, and no path from a read to
+// a write passes a release of that lock (so another goroutine cannot change the tested state in
+// between). Returns ok and, when not, the offending construct.
+func atomicSection(p *engine.Program, fn *ssa.Function, lockField *types.Var, reads, writes []ssa.Instruction) (bool, string) {
+	if len(reads) == 0 || len(writes) == 0 {
+		return false, fmt.Sprintf("found %d test site(s) and %d update site(s)", len(reads), len(writes))
+	}
+	lf := p.Locks(fn)
+	key := ""
+	for _, op := range lf.Ops() {
+		if op.Path.Last() == lockField && op.Acquire && op.Mode == engine.LockW {
+			key = op.Path.String()
+		}
+	}
+	if key == "" {
+		return false, "the function never takes the " + lockField.Name() + " write lock"
+	}
+	for _, in := range append(append([]ssa.Instruction{}, reads...), writes...) {
+		if lf.HeldAt(in)[key] != engine.LockW {
+			return false, fmt.Sprintf("%s at %s runs with %s held as %s, not as the write lock", in.String(), p.Pos(in.Pos()), lockField.Name(), modeName(lf.HeldAt(in)[key]))
+		}
+	}
+	isWrite := func(in ssa.Instruction) bool {
+		for _, w := range writes {
+			if w == in {
+				return true
+			}
+		}
+		return false
+	}
+	for _, op := range lf.Ops() {
+		if op.Acquire || op.Deferred || op.Path.Last() != lockField {
+			continue
+		}
+		u := op.Call.(ssa.Instruction)
+		for _, rd := range reads {
+			if engine.Reach(fn, rd, nil, isWrite, func(in ssa.Instruction) bool { return in == u }) != nil &&
+				engine.Reach(fn, u, nil, nil, isWrite) != nil {
+				return false, fmt.Sprintf("%s is released at %s on a path between the test at %s and the update", lockField.Name(), p.Pos(u.Pos()), p.Pos(rd.Pos()))
+			}
+		}
+	}
+	return true, ""
+}
